@@ -21,7 +21,7 @@ fn main() {
   std::panic::set_hook(Box::new(|_| {}));
   w("rb_roundtrip_small_sets", || { for n in 0..12u32 { let mut b = RevocationBitmap::new(); for i in 0..n { b.revoke(i * 7 + 1); } roundtrip(&b).map_err(|e| format!("{n} indices: {e}"))?; } Ok(()) });
   w("rb_roundtrip_larger_sets", || {
-    for n in [16u32, 17, 40, 100, 1000] { let mut b = RevocationBitmap::new(); for i in 0..n { b.revoke(i.wrapping_mul(2654435761) % 100000); } roundtrip(&b).map_err(|e| format!("{n} pseudo-random indices: {e}"))?; }
+    for n in [16u32, 17, 40, 100, 1000, 30000] { let mut b = RevocationBitmap::new(); for i in 0..n { b.revoke(i.wrapping_mul(2654435761) % (if n > 10000 { 4_000_000_000 } else { 100000 })); } roundtrip(&b).map_err(|e| format!("{n} pseudo-random indices: {e}"))?; }
     let mut b = RevocationBitmap::new(); for i in 0..5u32 { b.revoke(i * 70000); } roundtrip(&b).map_err(|e| format!("5 containers: {e}"))?;
     Ok(())
   });
@@ -50,9 +50,10 @@ fn main() {
     d.insert_service(RevocationBitmap::new().to_service(sid.clone()).unwrap()).map_err(|e| format!("setup: {e}"))?;
     let members = |d: &CoreDocument, probe: &[u32]| -> Vec<u32> { let b = d.resolve_revocation_bitmap((&sid).into()).unwrap(); probe.iter().cloned().filter(|i| b.is_revoked(*i)).collect() };
     let probe = [3u32, 5, 7, 9, 11, 65536];
-    let steps: [(&str, &[u32], Vec<u32>); 6] = [
+    let steps: [(&str, &[u32], Vec<u32>); 9] = [
       ("revoke", &[5], vec![5]), ("revoke", &[7, 5], vec![5, 7]), ("revoke", &[9, 9, 3], vec![3, 5, 7, 9]),
       ("unrevoke", &[7, 11], vec![3, 5, 9]), ("unrevoke", &[3, 42], vec![5, 9]), ("revoke", &[65536, 5], vec![5, 9, 65536]),
+      ("unrevoke", &[5, 9, 65536], vec![]), ("revoke", &[11], vec![11]), ("unrevoke", &[11], vec![]),
     ];
     for (op, idx, want) in steps {
       if op == "revoke" { d.revoke_credentials(&sid, idx) } else { d.unrevoke_credentials(&sid, idx) }.map_err(|e| format!("{op} {idx:?}: {e}"))?;
